@@ -9,6 +9,7 @@ def run(ctx):
         (1, C.gen_timeout),
         (1, C.gen_shared_expiry),
         (4, C.gen_shared_group_expiry),
+        (2, C.gen_colliding_groups),
     ]
     return C.run_check(ctx, "C05", gens, 100, 6000, router_n=30 if ctx.quick else 1000)
 
